@@ -299,7 +299,7 @@ fn plan_c16(thorough: bool) -> Plan {
     sort_by_bound(&mut cases);
     let mut p = Plan::new(
         cases,
-        "histx + imgdec: every history of ≤D commits with ≤B key actions over structural seed states (empty, leaf, branch, bulk, ovf, clusters of 19..21 keys below a depth-2 and a depth-3 merkle page) with hash tables of 64/256/4096 buckets; at every quiescent point (after open and after every commit) the directory is decoded by an independent decoder written from the documented formats: every key in exactly one leaf, strict order within/across leaves, keys bounded by separators, bbn labels, overflow chains complete with matching value hash and disjoint pages, used ∩ free = ∅, no page used twice, decoded key-value map = model; every full bucket found exactly once through its own probe sequence, every node reachable in every stored page = the reference trie's node at that position, needed pages either stored or marked elided (and then absent with all descendants), no unreachable stored page. Plus every process-crash cut (see C03) of the explicit crash histories (rollback, pruning, overlay commits, page promotion from elided to stored, pages cleared by delete-only commits): the image recovered by Nomt::open is decoded the same way.",
+        "histx + imgdec: every history of ≤D commits with ≤B key actions over structural seed states (empty, leaf, branch, bulk, ovf, clusters of 19..21 keys below a depth-2 and a depth-3 merkle page) with hash tables of 64/256/4096 buckets; the page-creating / page-clearing part of the family (clusters around the elision threshold, pairs of keys that each need a depth-1 page) also with every commit made through an overlay — one by one, and as a chain of overlays committed in order; 'quiet' copies without reads between the operations; at every quiescent point (after open and after every commit) the directory is decoded by an independent decoder written from the documented formats: every key in exactly one leaf, strict order within/across leaves, keys bounded by separators, bbn labels, overflow chains complete with matching value hash and disjoint pages, used ∩ free = ∅, no page used twice, decoded key-value map = model; every full bucket found exactly once through its own probe sequence, every node reachable in every stored page = the reference trie's node at that position, needed pages either stored or marked elided (and then absent with all descendants), no unreachable stored page. Plus every process-crash cut (see C03) of the explicit crash histories (rollback, pruning, overlay commits, page promotion from elided to stored, pages cleared by delete-only commits): the image recovered by Nomt::open is decoded the same way.",
     );
     p.budget_s = if thorough { 1500 } else { 45 };
     p.assumptions = vec!["the decoder implements the documented layouts (trusted, ~600 lines, shares no code with nomt)".into(), "crash-recovered images are covered by the C03 check, which applies the same decoder".into()];
@@ -319,7 +319,7 @@ fn plan_c19(thorough: bool) -> Plan {
     sort_by_bound(&mut cases);
     let mut p = Plan::new(
         cases,
-        "histx + imgdec: the structural history family of C16; at every quiescent point the decoder's page accounting must give [1, bump) = in-use ⊎ free-list-tracked in both value files (no leak, no double use), and hash_table_utilization().occupied = number of full buckets in the decoded meta map = number of stored pages reachable from the root (0 for an empty store). Plus every process-crash cut of the explicit crash histories: the same accounting of occupancy on the handle that recovered the image.",
+        "histx + imgdec: the structural history family of C16 (including the histories committed through overlays and overlay chains); at every quiescent point the decoder's page accounting must give [1, bump) = in-use ⊎ free-list-tracked in both value files (no leak, no double use), and hash_table_utilization().occupied = number of full buckets in the decoded meta map = number of stored pages reachable from the root (0 for an empty store). Plus every process-crash cut of the explicit crash histories: the same accounting of occupancy on the handle that recovered the image.",
     );
     p.budget_s = if thorough { 1500 } else { 45 };
     p
